@@ -32,7 +32,8 @@ CHUNK = 24
 def bounds(tier):
     return {"n-ary": "3- and 4-operand Add/Compose/Hstack/Vstack/Diag over 5 leaves (quick) / 3-operand over 11 leaves (thorough)", "tree nodes": "1 over 11 leaves (all axes), 2 over 5 leaves (all axes)" if tier == "quick"
             else "<= 2 over 11 leaves (all axes), 3 over 3 leaves",
-            "ill-typed": "every ordered pair over 11 leaves + 6 shape-coincidence operands ([6], [2], [2,3,1], [1,2,3], [2,3,2]) x {Compose, Add, Sub, Hstack/Vstack axis in [-nd-1, nd], None, Diag iaxis/oaxis in {None,0,1,-1}} rejected by the reference shape calculus"}
+            "3-D operands": "7 leaves on [2,3,2] [2,3,4] [3,2,4] [2,2,2] [2,3,3] [3,3,2] (repeated lengths): every 1-node tree and every ill-typed pair",
+            "ill-typed": "every ordered pair over 11 leaves + 6 shape-coincidence operands ([6], [2], [2,3,1], [1,2,3], [2,3,2]) x {Compose, Add, Sub, Hstack/Vstack axis in [-nd-1, nd], None, Diag iaxis/oaxis in [-nd, nd) and None} rejected by the reference shape calculus"}
 
 
 def gen_cases(tier, seed):
@@ -49,6 +50,10 @@ def gen_cases(tier, seed):
             cases.append(dict(kind="tree", spec=t))
         for t in programs.trees(programs.SUB3, 3, all_axes=False, scalars=programs.SCALARS[:1]):
             cases.append(dict(kind="tree", spec=t))
+    for t in programs.trees(programs.LEAVES3, 1):
+        cases.append(dict(kind="tree", spec=t))
+    for t in programs.ill_typed_pairs(programs.LEAVES3):
+        cases.append(dict(kind="ill", spec=t))
     for t in programs.ill_typed_pairs(programs.LEAVES + programs.ILL_EXTRA):
         cases.append(dict(kind="ill", spec=t))
     return cases
